@@ -205,6 +205,54 @@ def oracle_real(ck, rng):
                              oracle="template_matcher", measured=detail)
 
 
+def oracle_even_template_rotations(ck, rng):
+    """even-sized (and odd-sized) templates planted under the searched rotations: position (template centre) and rotation are recovered,
+    single chunk and a chunking whose borders stay away from the particles"""
+    import dask.array as da
+    from scipy import ndimage as ndi
+    from scipy.spatial.transform import Rotation
+    from acryo.pick import ZNCCTemplateMatcher
+    from acryo._utils import compose_matrices
+    for it in range(2 if ck.tier == "quick" else 12):
+        n = [8, 9, 10, 7][it % 4]
+        scale = [1.0, 0.5, 2.0][it % 3]
+        t = np.zeros((n, n, n), np.float32)
+        t[1:n - 2, 2:n - 3, n // 2:n // 2 + 2] = 1; t[n // 2, 1:n - 1, 2] = 2; t[n - 3, n - 3, 1:n - 1] = 1.5; t[1, 1, 1] = 2.5     # chiral
+        t = ndi.gaussian_filter(t, 0.5)
+        rots = Rotation.from_euler("z", [[0], [90], [180], [-90]], degrees=True)
+        N = (20, 64, 64)
+        big = np.zeros(N, np.float32)
+        truth = []
+        c_ = (n - 1) / 2
+        for j, (py, px) in enumerate([(14, 14), (14, 46), (46, 14), (46, 46)]):
+            k = j % 4
+            mtx = compose_matrices(np.array([c_, c_, c_]), [rots[k].inv()])[0]
+            tr = ndi.affine_transform(t, mtx, order=1)
+            lo = (10 - n // 2, py - n // 2, px - n // 2)
+            big[lo[0]:lo[0] + n, lo[1]:lo[1] + n, lo[2]:lo[2] + n] += tr
+            truth.append((np.array(lo, float) + c_, k))          # centre of the planted box, in voxels
+        for ch in (N, (20, 32, 32)):
+            c = dict(picker="ZNCC", template_size=n, chunks=list(ch), scale=scale)
+            try:
+                m = ZNCCTemplateMatcher(t, rotation=rots).pick_molecules(da.from_array(big, chunks=ch), scale, min_distance=4.0 * scale, min_score=0.6)
+                pos = np.asarray(m.pos) / scale
+                detail = "" if len(pos) == len(truth) else f"{len(pos)} picks for {len(truth)} particles"
+                for cen, k in truth:
+                    dd = np.linalg.norm(pos - cen[None], axis=1) if len(pos) else np.array([np.inf])
+                    jj = int(np.argmin(dd))
+                    if dd[jj] > 0.51:
+                        detail += f"; particle at {cen.tolist()} (rotation #{k}) picked {dd[jj]:.2f} voxels away"
+                    elif (m.rotator[jj].inv() * rots[k]).magnitude() > 1e-3:
+                        detail += f"; particle at {cen.tolist()}: reported rotation is not searched rotation #{k}"
+            except Exception as e:  # noqa
+                detail = f"raised {type(e).__name__}: {str(e)[:100]}"
+            ck.oracle_count("rotated_template_positions", 1, 1)
+            if detail:
+                ck.violation(what=f"ZNCC matcher, {n}^3 template, 4 searched rotations, chunks {ch}: {detail.strip('; ')}", inp=c,
+                             key={"site": "matcher-rotations", "even_template": n % 2 == 0, "chunked": tuple(ch) != tuple(N)}, oracle="rotated_template_positions",
+                             measured=detail)
+
+
 def oracle_noncubic_matcher(ck, rng):
     """white-noise templates of non-cubic shape (every axis has its own overlap depth), particles centred in the last voxels of a chunk:
     the chunked result equals the single-chunk one and finds every planted particle exactly once"""
@@ -255,6 +303,7 @@ def run(ck: common.Check):
     corr_scripted(ck, rng)
     oracle_real(ck, rng)
     oracle_noncubic_matcher(ck, np.random.default_rng(ck.seed + 202020))
+    oracle_even_template_rotations(ck, np.random.default_rng(ck.seed + 212121))
 
 
 def replay(data):
